@@ -184,19 +184,34 @@ def check(ctx):
     ctx.check(vals.get("Satisfiable") == "10" and vals.get("Unsatisfiable") == "20", R, rc, "codes", "Satisfiable = 10, Unsatisfiable = 20", "return code table is %s" % vals)
     for ref, term in (("tools.unigen:call_unigen_python", " 0:1"), ("tools.unigen:call_cmsgen_python", " 0")):
         w = ctx.fn(ref)
-        st = [s for s in statements(w.node) if isinstance(s, ast.Assign) and dotted(s.targets[0]) == "sample_str"]
-        ctx.require(len(st) == 1, "%s: sample_str not found" % w.fq)
-        cs2 = consts(str_parts(st[0].value))
-        ctx.check(cs2 == ["v ", term], R, w, "sample line %s" % cs2, "sample line = 'v ' + literals + %r" % term, "%s writes sample lines %s" % (w.qual, cs2), st[0])
+        # the sample line, wherever it is built: the outermost string expression whose first constant is "v "
+        lines_ = []
+        for node in ast.walk(w.node):
+            if isinstance(node, (ast.BinOp, ast.JoinedStr)):
+                try:
+                    cs2 = consts(str_parts(node))
+                except Exception:
+                    continue
+                if cs2[:1] == ["v "]:
+                    lines_.append((node, cs2))
+        outer = [(n_, c_) for n_, c_ in lines_ if not any(n_ is not m_ and any(x is n_ for x in ast.walk(m_)) for m_, _c in lines_)]
+        ctx.require(len(outer) == 1, "%s: the sample line ('v ' ...) was not found" % w.fq)
+        cs2 = outer[0][1]
+        ctx.check(cs2 == ["v ", term], R, w, "sample line %s" % cs2, "sample line = 'v ' + literals + %r" % term, "%s writes sample lines %s" % (w.qual, cs2), outer[0][0])
     b = ctx.fn("sample_uniform:build_solution")
     F = Facts(b)
     ctx.check(F.assigns("assignment") == ["[int(_b0) for _b0 in line.replace('v', '').strip().split()[:-1]]"] and
               F.assigns("frequency") == ["int(line.replace('v', '').strip().split()[-1].split(':')[-1])"], R, b, "build_solution",
               "assignment = all tokens but the last (terminator[:frequency]); frequency = part after ':'", "build_solution changed: %s / %s" % (F.assigns("assignment"), F.assigns("frequency")))
     cm = ctx.fn("tools.unigen:call_cmsgen_python")
-    body = ast.unparse(cm.node)
-    ctx.check("for var in sampling_set:" in body and "if var < len(solution) and solution[var]:\n                    sample_lits.append(str(var))" in body and
-              "sample_lits.append(str(-var))" in body, R, cm, "cmsgen literals", "exactly the sampling-set variables, signed by the model", "call_cmsgen_python literal rendering changed")
+    Fcm = Facts(cm)
+    users = [x for x in Fcm.stmts if not isinstance(x, (ast.For, ast.If, ast.Try, ast.With, ast.While)) and
+             any(isinstance(n_, ast.Name) and n_.id == "sample_lits" and isinstance(n_.ctx, ast.Load) for n_ in ast.walk(x)) and
+             any(isinstance(n_, ast.Constant) and n_.value == "v " for n_ in ast.walk(x))]
+    lits = str(Fcm.at(users[0], ast.Name(id="sample_lits", ctx=ast.Load()))) if users else ""
+    ctx.check(lits.startswith("[ite(((_b0 < len(") and "[1])) and " in lits and "[1][_b0]), str(_b0), str(-_b0)) for _b0 in ite(parse_cnf_file(input_file)[1], parse_cnf_file(input_file)[1], "
+              "list(range(1, 1 + parse_cnf_file(input_file)[2])))]" in lits, R, cm, "cmsgen literals",
+              "exactly the sampling-set variables (all variables when the file names none), each signed by the model", "call_cmsgen_python renders the literals as `%s`" % lits[:200])
     su = ctx.fn("sample_uniform:sample_uniform")
     r = [s for s in statements(su.node) if isinstance(s, ast.Return)]
     t = ast.unparse(r[-1].value)
